@@ -237,7 +237,9 @@ func (s *Solver) define(ts *TermStore, t *Term) {
 				s.buf.WriteString(ts.ufs[cur.Name] + "\n")
 			}
 		}
-		fmt.Fprintf(&s.buf, "(define-fun t%d () %s %s)\n", cur.ID, cur.Sort, cur.body())
+		// named constants + defining equations: z3's expansion of nested define-fun
+		// macros is super-linear (measured 30x slower on 100-deep chains)
+		fmt.Fprintf(&s.buf, "(declare-const t%d %s)\n(assert (= t%d %s))\n", cur.ID, cur.Sort, cur.ID, cur.body())
 	}
 }
 
